@@ -401,6 +401,15 @@ func ParseData(data []byte) (config Config, err error) {
 		velocity = 64
 	}
 
+	for name, v := range map[string]int{
+		"white": cfg.OpenRGB.White, "black": cfg.OpenRGB.Black, "c": cfg.OpenRGB.C, "unavailable": cfg.OpenRGB.Unavailable,
+		"other": cfg.OpenRGB.Other, "active": cfg.OpenRGB.Active, "active_external": cfg.OpenRGB.ActiveExternal,
+	} {
+		if v < 0 || v > 0xffffff {
+			return Config{}, fmt.Errorf("[open_rgb] %s: colour 0x%x is not a 24-bit RGB value", name, v)
+		}
+	}
+
 	convertToColor := func(v int) openrgb.Color {
 		return openrgb.Color{
 			Red:   byte(v >> 16),
